@@ -2,18 +2,24 @@ import NibabelModel.Model.C07
 import Driver.Util
 /-! Line-protocol driver for C07.
 
-  `C07 run <cls> <owned 0|1> <off,dt,slope,inter> <alias> <exts> <mat> <resolve> <table> <ops>`
+  `C07 run  <cls> <owned 0|1> <off,dt,slope,inter> <alias> <aff> <xflip 0|1> <src> <exts> <mat> <resolve> <table> <ops>`
+  `C07 runq …same…`   (saves by file NAME: the I/O calls are not observable, so `n=… […]` is not printed)
+  `C07 matload <flip 0|1> <mat> <M>`   (`Spm99AnalyzeImage.from_file_map` on a `.mat` file; matrices `-` = absent)
 
   * slope/inter: `n` (NaN) or the raw bits as a natural number; alias: `-`|`c`|`s`
+  * aff: `-` (affine None) or 16 integers `,`-separated (row major); src: `a` (array) | `m<file>` (proxy with
+    memory map on the file with that identity) | `r<file>` (proxy, no memory map)
   * exts: `-` or `content:pad,content:pad,…`; mat: `-` or `n,n,…` (write sizes)
   * resolve: `<compat>,<smallest>`, each a dtype code or `x` (ValueError)
   * table: `-` or `code:wok:slope:inter:nWrites:wBytes;…` (writer externals per out dtype code)
   * ops: `;`-separated — `S:<dt>:<fault>:<fm>` (dt `-`|`c<code>`|`ac`|`as`|`x`; fault `-`|`k<n>`|`b<n>`;
-    fm `-`|id), `D:<code>`, `A:<c|s>`; add the prefix `O` to `S` (`OS:…`) to run the ORIGINAL save.
+    fm `-`|id), optionally `:<identity of the destination image file>`; `D:<code>`, `A:<c|s>`; add the
+    prefix `O` to `S` (`OS:…`) to run the ORIGINAL save.
 
   Output: one block per op joined by ` | `:
-    `<ok|ERR:…> n=<io calls> [<io log>] <state> out=<id|->`  (saves)   /   `<ok|ERR:…> <state>`
-  state = `off,dt,slope,inter,alias,fm,hdrobj,h<first-seen id of the header fields>`. -/
+    `<ok|ERR:…> n=<io calls> [<io log>] <state> out=<id|->[ M=<16 ints>/<16 ints>]`  (saves)   /   `<ok|ERR:…> <state>`
+  state = `off,dt,slope,inter,alias,fm,hdrobj,h<first-seen id of the header fields>,a<first-seen id of the
+  affine>,x<default_x_flip>,d<first-seen id of the data>`; `M=` are the variables M / mat of the `.mat` file. -/
 namespace Nb.Drv.C07
 open Nb.C07
 
@@ -85,11 +91,31 @@ def parseFault? (s : String) : Option Fault :=
   else if s.startsWith "b" then (s.drop 1).toString.toNat?.map Fault.bytes
   else none
 
+def parseInt? (s : String) : Option Int :=
+  if s.startsWith "-" then (s.drop 1).toString.toNat?.map (fun n => - (Int.ofNat n)) else s.toNat?.map Int.ofNat
+
+def parseM4? (s : String) : Option M4 :=
+  match (s.splitOn ",").mapM parseInt? with
+  | some [a, b, c, d, e, f, g, h, i, j, k, l, m, n, o, p] =>
+      some ⟨⟨a, b, c, d⟩, ⟨e, f, g, h⟩, ⟨i, j, k, l⟩, ⟨m, n, o, p⟩⟩
+  | _ => none
+
+def parseAff? (s : String) : Option (Option M4) :=
+  if s = "-" then some none else (parseM4? s).map some
+
+def parseSrc? (s : String) : Option Src :=
+  if s = "a" then some .array
+  else if s.startsWith "m" then (s.drop 1).toString.toNat?.map (fun f => Src.proxy f true)
+  else if s.startsWith "r" then (s.drop 1).toString.toNat?.map (fun f => Src.proxy f false)
+  else none
+
+def showM4 (m : M4) : String := ",".intercalate (m.toList.map toString)
+
 def parseFm? (s : String) : Option (Option Nat) :=
   if s = "-" then some none else s.toNat?.map some
 
 inductive DOp where
-  | save (orig : Bool) (req : SaveReq)
+  | save (orig : Bool) (req : SaveReq) (dest : Nat)
   | setDtype (c : Nat)
   | setAlias (a : Alias)
 
@@ -98,8 +124,14 @@ def parseOp? (s : String) : Option DOp :=
   | [k, dt, f, fm] =>
       if k = "S" ∨ k = "OS" then
         match parseDt? dt, parseFault? f, parseFm? fm with
-        | some dt, some f, some fm => some (.save (k = "OS") ⟨dt, fm, f⟩)
+        | some dt, some f, some fm => some (.save (k = "OS") ⟨dt, fm, f⟩ 0)
         | _, _, _ => none
+      else none
+  | [k, dt, f, fm, dest] =>
+      if k = "S" ∨ k = "OS" then
+        match parseDt? dt, parseFault? f, parseFm? fm, dest.toNat? with
+        | some dt, some f, some fm, some dest => some (.save (k = "OS") ⟨dt, fm, f⟩ dest)
+        | _, _, _, _ => none
       else none
   | ["D", c] => c.toNat?.map DOp.setDtype
   | ["A", "c"] => some (.setAlias .compat)
@@ -133,24 +165,38 @@ def firstSeen {α} [DecidableEq α] (seen : List α) (x : α) : List α × Nat :
 
 structure St where
   img   : Img
+  quiet : Bool
+  affs  : List (Option M4)
+  datas : List Nat
   hdrs  : List Hdr
   outs  : List (List Chunk)
   acc   : List String
 
 def showState (st : St) (img : Img) : St × String :=
   let (hs, hid) := firstSeen st.hdrs img.core.hdr
+  let (as, aid) := firstSeen st.affs img.core.affine
+  let (ds, did) := firstSeen st.datas img.core.data
   let h := img.core.hdr
-  ({ st with hdrs := hs },
-   s!"{h.offset},{h.dtype},{showScl h.slope},{showScl h.inter},{showAlias img.core.alias},{img.fileMap},{img.core.hdrObj},h{hid}")
+  let x := if img.core.xflip then 1 else 0
+  ({ st with hdrs := hs, affs := as, datas := ds },
+   s!"{h.offset},{h.dtype},{showScl h.slope},{showScl h.inter},{showAlias img.core.alias},{img.fileMap},{img.core.hdrObj},h{hid},a{aid},x{x},d{did}")
+
+def showMat (out : List Chunk) : String :=
+  match out.filterMap (fun c => match c with | .mat M m => some (M, m) | _ => none) with
+  | [] => ""
+  | (M, m) :: _ => s!" M={showM4 M}/{showM4 m}"
 
 def runOp (cls : Cls) (env : Env) (st : St) : DOp → St
-  | .save orig req =>
+  | .save orig req dest =>
+      let env := { env with destImage := dest }
       let o := if orig then saveOrig cls env req st.img else save cls env req st.img
       let (st1, s) := showState st o.img
       let (outs, oid) := match o.err with
         | none => let (os, i) := firstSeen st1.outs o.out; (os, toString i)
         | some _ => (st1.outs, "-")
-      let line := s!"{showErr o.err} n={o.calls} [{",".intercalate (o.log.map showCall)}] {s} out={oid}"
+      let io := if st.quiet then "" else s!" n={o.calls} [{",".intercalate (o.log.map showCall)}]"
+      let mat := match o.err with | none => showMat o.out | some _ => ""
+      let line := s!"{showErr o.err}{io} {s} out={oid}{mat}"
       { st1 with img := o.img, outs := outs, acc := st1.acc ++ [line] }
   | .setDtype c =>
       let r := step cls st.img (.setDtype c)
@@ -161,21 +207,38 @@ def runOp (cls : Cls) (env : Env) (st : St) : DOp → St
       let (st1, s) := showState st r.2
       { st1 with img := r.2, acc := st1.acc ++ [s!"{showErr r.1} {s}"] }
 
-def handle : List String → String
-  | ["run", cls, owned, hdr, alias, exts, mat, resolve, table, ops] =>
+def handleRun (quiet : Bool) : List String → String
+  | [cls, owned, hdr, alias, aff, xflip, src, exts, mat, resolve, table, ops] =>
       match parseCls? cls, parseBool? owned, parseHdr? hdr, parseAliasOpt? alias, parseExts? exts,
             parseNatList? mat, parseResolve? resolve, parseTable? table, (ops.splitOn ";").mapM parseOp? with
       | some cls, some owned, some hdr, some alias, some exts, some mat, some resolve, some table, some ops =>
-          let writer : Nat → WEntry := fun c =>
-            match table.lookup c with
-            | some e => e
-            | none => ⟨false, none, none, 0, 0⟩
-          let env : Env := { owned := owned, exts := exts, mat := mat, resolve := resolve, writer := writer }
-          let img : Img := { core := { hdr := hdr, alias := alias, data := 1, affine := 2, hdrObj := 0 }, fileMap := 0 }
-          let (st0, s0) := showState { img := img, hdrs := [], outs := [], acc := [] } img
-          let st := ops.foldl (runOp cls env) { st0 with acc := [s0] }
-          " | ".intercalate st.acc
+          match parseAff? aff, parseBool? xflip, parseSrc? src with
+          | some aff, some xflip, some src =>
+              let writer : Nat → WEntry := fun c =>
+                match table.lookup c with
+                | some e => e
+                | none => ⟨false, none, none, 0, 0⟩
+              let env : Env := { owned := owned, exts := exts, mat := mat, resolve := resolve, writer := writer }
+              let img : Img := { core := { hdr := hdr, alias := alias, data := 1, affine := aff, xflip := xflip,
+                                           src := src, hdrObj := 0 }, fileMap := 0 }
+              let (st0, s0) := showState { img := img, quiet := quiet, affs := [], datas := [], hdrs := [],
+                                           outs := [], acc := [] } img
+              let st := ops.foldl (runOp cls env) { st0 with acc := [s0] }
+              " | ".intercalate st.acc
+          | _, _, _ => "bad-op"
       | _, _, _, _, _, _, _, _, _ => "bad-op"
+  | _ => "bad-op"
+
+def handle : List String → String
+  | "run" :: rest => handleRun false rest
+  | "runq" :: rest => handleRun true rest
+  | ["matload", flip, mat, M] =>
+      match parseBool? flip, parseAff? mat, parseAff? M with
+      | some flip, some mat, some M =>
+          match loadMat flip mat M with
+          | some a => showM4 a
+          | none => "ERR:ValueError"
+      | _, _, _ => "bad-op"
   | _ => "bad-op"
 
 end Nb.Drv.C07
